@@ -25,6 +25,11 @@ MCInit ==
         InitWith([text |-> s, toks |-> Lex(s), allow |-> a])
   \/ \E n \in (N+1)..M4 : \E s \in [1..n -> Vers] : \E a \in BOOLEAN :
         InitWith([text |-> s, toks |-> Lex(s), allow |-> a])
+  \* ... and every substitution-variable string where a VERSION is expected: inside the parentheses of a constraint,
+  \* with and without operator and closing parenthesis ("a (= ${b:c })" is 13 tokens: out of reach of the plain strings)
+  \/ \E n \in 1..M3 : \E s \in [1..n -> Subst] : \E a \in BOOLEAN :
+     \E pre \in { <<"I", "(">>, <<"I", "W", "(", "=", "W">> }, post \in { <<>>, <<")">> } :
+        InitWith([text |-> pre \o s \o post, toks |-> Lex(pre \o s \o post), allow |-> a])
 Emit == Done => PrintT(<<"REPLAY", ToJson([
            i |-> case.text, a |-> case.allow,
            t |-> [k \in 1..Len(toks) |-> <<toks[k][1], toks[k][3]>>],
